@@ -95,7 +95,13 @@ func c17Converter(t int) *shellfuncsfile.Converter {
 			c.SetFilter(p, nil)
 		}
 	}
+	/* (The default patterns are left as the constructor set them up: what
+	is added is added to them.) */
+	defaults := map[string]string{"*.pl": "perl", "*.sh": "shell", "*.subr": "shell"}
 	for p, f := range c17Tables[t] {
+		if defaults[p] == f {
+			continue
+		}
 		c.SetFilter(p, c17Filter(f))
 	}
 	return c
